@@ -32,14 +32,14 @@ CONSTANTS
     Ids,            \* task ids (naturals; the btree breaks ties by id)
     Workers,        \* worker indices
     WorkerMaps,     \* set of functions [Ids -> Workers]: id -> worker (xxhash(id) % len(workchans) in the code)
-    CfgSpace,       \* set of [k : {"every","cron"}, e : 1..3, o : -1..1]
+    CfgSpace,       \* set of [k : {"every","cron","until"}, e : 1..3, o : -1..1, end : Int]  (end only for "until")
     MaxClock,       \* bound on the clock
     MaxApi,         \* bound on API calls
     MaxLast,        \* Schedule's lastScheduled ranges over 0..MaxLast
     TrackRan        \* BOOLEAN: keep the set of all occurrences ever dispatched (observations only)
 
 None == -1
-NoCfg == [k |-> "none", e |-> 0, o |-> 0]
+NoCfg == [k |-> "none", e |-> 0, o |-> 0, end |-> None]
 NoItem == [id |-> None, when |-> None, next |-> None, c |-> NoCfg]
 NoOp == [t |-> "none", id |-> None, c |-> NoCfg, last |-> None]
 
@@ -67,11 +67,15 @@ implvars == <<swhen, timerAt, tick, pc>>
 vars == <<now, queue, nextTime, swhen, timerAt, tick, pc, wk, wof, pend, napi, active, expNext, lastCk, ran, ckAll, bad>>
 
 (* ---- schedules ---- *)
+(* "until": a cron expression with a year field has a LAST occurrence (here: the multiples of e up  *)
+(* to end); after it cron.Next fails ("could not fulfil schedule") and NextOcc is None.              *)
 NextOcc(c, from) ==
     IF c.k = "every" THEN from + c.e                 \* "@every Ns": relative to the previous occurrence
-    ELSE ((from \div c.e) + 1) * c.e                 \* cron "*/N * * * * * *": aligned
+    ELSE LET n == ((from \div c.e) + 1) * c.e        \* cron "*/N * * * * * *": aligned
+         IN  IF c.k = "until" /\ n > c.end THEN None ELSE n
 
 MkItem(id, c, nx) == [id |-> id, when |-> nx + c.o, next |-> nx, c |-> c]
+HasNext(x) == NextOcc(x.c, x.next) # None
 Advance(x) == MkItem(x.id, x.c, NextOcc(x.c, x.next))
 
 ItemLess(a, b) == a.when < b.when \/ (a.when = b.when /\ a.id < b.id)
@@ -90,7 +94,7 @@ Busy(id) == \E w \in Workers : Running(w) /\ wk[w].it.id = id
 (* (each worker gets at most one item of D).  Used by LoopPass with the set *)
 (* the iterator computes and by the trace specification with one item.      *)
 DispatchEffect(D) ==
-    LET ins == { Advance(x) : x \in D }
+    LET ins == { Advance(x) : x \in { y \in D : HasNext(y) } }
         q1  == { y \in queue : ~\E x \in D : SameKey(x, y) }
         q2  == { y \in q1 : ~\E n \in ins : SameKey(n, y) } \cup ins
         flaws == UNION { (IF x.next # expNext[x.id] THEN {"order"} ELSE {})
@@ -99,14 +103,19 @@ DispatchEffect(D) ==
                          \cup (IF Busy(x.id) THEN {"concurrent"} ELSE {})
                          \cup (IF TrackRan /\ x.next \in ran[x.id] THEN {"rerun"} ELSE {}) : x \in D }
     IN  /\ queue' = q2
+        \* process(): delete(s.nextTime, id) for every dispatched item, set again only for the re-inserted ones:
+        \* an item whose schedule has ended (updateNext fails) is dropped - its last occurrence has been handed out
         /\ nextTime' = [i \in Ids |->
                 IF \E n \in ins : n.id = i THEN (CHOOSE n \in ins : n.id = i).when
+                ELSE IF \E x \in D : x.id = i THEN None
                 ELSE nextTime[i]]
         /\ wk' = [w \in Workers |->
                 IF \E x \in D : wof[x.id] = w
                 THEN [st |-> "recv", it |-> CHOOSE x \in D : wof[x.id] = w, stale |-> FALSE]
                 ELSE wk[w]]
         /\ expNext' = [i \in Ids |-> IF \E x \in D : x.id = i THEN NextOcc((CHOOSE x \in D : x.id = i).c, (CHOOSE x \in D : x.id = i).next) ELSE expNext[i]]
+        \* Ref: after its last occurrence the id is not scheduled any more (nothing may run for it until a new Schedule)
+        /\ active' = [i \in Ids |-> IF \E x \in D : x.id = i /\ ~HasNext(x) THEN FALSE ELSE active[i]]
         /\ ran' = IF TrackRan THEN [i \in Ids |-> ran[i] \cup { x.next : x \in { y \in D : y.id = i } }] ELSE ran
         /\ bad' = bad \cup flaws
 
@@ -162,10 +171,16 @@ RelCore(id) ==
     /\ lastCk' = [lastCk EXCEPT ![id] = None]
     /\ wk' = MarkStale(id)
 
+(* Schedule computes the first occurrence BEFORE taking the lock; if there is none (the schedule *)
+(* has ended) it returns the error and nothing changes - a previous schedule of the id stays.   *)
+SchedFails(op) == op.t = "S" /\ NextOcc(op.c, op.last) = None
+
 ApiDo ==
     /\ pend # NoOp
     /\ pend' = NoOp
-    /\ IF pend.t = "S"
+    /\ IF SchedFails(pend)
+       THEN UNCHANGED <<queue, nextTime, swhen, timerAt, wk, active, expNext, lastCk>>
+       ELSE IF pend.t = "S"
        THEN SchedCore(pend.id, pend.c, pend.last) /\ SchedTimer(NextOcc(pend.c, pend.last) + pend.c.o)
        ELSE RelCore(pend.id) /\ UNCHANGED <<swhen, timerAt>>
     /\ UNCHANGED <<now, tick, pc, wof, napi, ran, ckAll, bad>>
@@ -205,17 +220,19 @@ LoopPassWith(L) ==
     /\ pc = "woken"
     /\ IF queue = {}
        THEN /\ swhen' = None /\ pc' = "select"
-            /\ UNCHANGED <<queue, nextTime, timerAt, wk, expNext, ran, bad>>
+            /\ UNCHANGED <<queue, nextTime, timerAt, wk, expNext, active, ran, bad>>
        ELSE IF MinItem(queue).when > now
        THEN \* the timer fired for an item that is gone: wait for the new minimum
             /\ swhen' = MinItem(queue).when /\ timerAt' = MinItem(queue).when /\ pc' = "select"
-            /\ UNCHANGED <<queue, nextTime, wk, expNext, ran, bad>>
+            /\ UNCHANGED <<queue, nextTime, wk, expNext, active, ran, bad>>
        ELSE /\ DispatchEffect(FirstSet \cup L)
-            /\ LET m == MinItem(queue') IN
-                 /\ swhen' = m.when
-                 /\ IF m.when > now THEN timerAt' = m.when /\ pc' = "select"
-                                    ELSE UNCHANGED timerAt /\ pc' = "woken"     \* something is still due: go round again
-    /\ UNCHANGED <<now, tick, wof, pend, napi, active, lastCk, ckAll>>
+            /\ IF queue' = {}
+               THEN swhen' = None /\ pc' = "select" /\ UNCHANGED timerAt    \* the last item's schedule ended
+               ELSE LET m == MinItem(queue') IN
+                      /\ swhen' = m.when
+                      /\ IF m.when > now THEN timerAt' = m.when /\ pc' = "select"
+                                         ELSE UNCHANGED timerAt /\ pc' = "woken"     \* something is still due: go round again
+    /\ UNCHANGED <<now, tick, wof, pend, napi, lastCk, ckAll>>
 
 LoopPass == \E L \in LateChoices : LoopPassWith(L)
 LoopPassFirst == LoopPassWith({})
